@@ -306,3 +306,52 @@ theorem takeWhile_all {α : Type} (p : α → Bool) : ∀ (xs rest : List α), x
     simp [List.takeWhile, List.dropWhile, h.1, ih.1, ih.2]
 
 end MoSql.Lex
+
+namespace MoSql.Lex
+
+theorem takeWhile_digits_append (ds : List Char) (hd : ∀ c ∈ ds, isDigit c = true) (c : Char) (r : List Char) (hc : isDigit c = false) :
+    (ds ++ c :: r).takeWhile isDigit = ds ∧ (ds ++ c :: r).dropWhile isDigit = c :: r := by
+  induction ds with
+  | nil => simp [List.takeWhile, List.dropWhile, hc]
+  | cons d ds ih =>
+    have hd0 : isDigit d = true := hd d List.mem_cons_self
+    have ih' := ih (fun x hx => hd x (List.mem_cons_of_mem _ hx))
+    simp [List.takeWhile, List.dropWhile, hd0, ih'.1, ih'.2]
+
+theorem stripPlus_of_digits : ∀ (ks : List Char), (∀ c ∈ ks, isDigit c = true) → stripPlus ks = ks
+  | [], _ => rfl
+  | c :: cs, h => by
+    have hc : isDigit c = true := h c List.mem_cons_self
+    unfold stripPlus
+    split
+    · rename_i t heq
+      simp only [List.cons.injEq] at heq
+      rw [heq.1] at hc
+      simp [isDigit] at hc
+    · rfl
+
+theorem takeWhile_all_digits : ∀ (ds : List Char), (∀ c ∈ ds, isDigit c = true) →
+    ds.takeWhile isDigit = ds ∧ ds.dropWhile isDigit = []
+  | [], _ => by simp
+  | d :: ds, h => by
+    have hd0 : isDigit d = true := h d List.mem_cons_self
+    have ih := takeWhile_all_digits ds (fun x hx => h x (List.mem_cons_of_mem _ hx))
+    simp [List.takeWhile, List.dropWhile, hd0, ih.1, ih.2]
+
+/-- `parse_int` on the text `<digits>e[+]<digits>`: exactly mantissa × 10^exponent, whatever the sizes -/
+theorem parseIntText_exponent (n k : Nat) (e : Char) (he : isDigit e = false) (plus : Bool) :
+    parseIntText (digits n ++ e :: ((if plus then ['+'] else []) ++ digits k)) = n * 10 ^ k := by
+  have h := takeWhile_digits_append (digits n) (digits_all_digit n) e ((if plus then ['+'] else []) ++ digits k) he
+  unfold parseIntText
+  simp only [h.1, h.2, parseNat_digits]
+  cases plus
+  · simp only [Bool.false_eq_true, if_false, List.nil_append, stripPlus_of_digits (digits k) (digits_all_digit k), parseNat_digits]
+  · simp only [if_true, List.cons_append, List.nil_append, stripPlus, parseNat_digits]
+
+/-- … and without an exponent -/
+theorem parseIntText_plain (n : Nat) : parseIntText (digits n) = n := by
+  unfold parseIntText
+  have h := takeWhile_all_digits (digits n) (digits_all_digit n)
+  simp only [h.1, h.2, parseNat_digits]
+
+end MoSql.Lex
